@@ -189,7 +189,12 @@ class G:
                  str(rng.randint(0, 1)), rng.choice(['none', '0', '1', '2']))
 
 
+AHX = [False]        # known finding C02-asciihex: ASCIIHexDecode on structural streams only in the 'ahx' profile
+
+
 def g_sfilter(rng, wild):
+    if AHX[0] and rng.random() < 0.6:
+        return L('ahx', str(rng.randint(0, 1)), L(*[str(rng.randint(0, 40)) for _ in range(rng.randint(0, 5))]))
     if rng.random() > wild:
         return 'none'
     def pred():
@@ -227,6 +232,7 @@ def gen_write(rng, profile):
     """returns (write line, tags)"""
     wild = {'plain': 0.0, 'mild': 0.4, 'wild': 1.0}[profile['lex']]
     RAWCR[0] = profile.get('rawcr', False)
+    AHX[0] = profile.get('ahx', False)
     n = rng.choice([1, 2, 3, 5, 8, 12])
     nums = rng.sample(range(1, max(3 * n, 20)), n)
     g = G(rng, wild, nums, deep_parens=profile.get('deep', False))
@@ -337,7 +343,7 @@ PROFILES = [
     ({'lex': 'plain', 'xref': 'stream', 'objstm': True}, 1), ({'lex': 'mild', 'xref': 'stream', 'objstm': True}, 3),
     ({'lex': 'wild', 'xref': 'stream', 'objstm': True}, 4),
     ({'lex': 'wild', 'xref': 'table', 'rawcr': True}, 1), ({'lex': 'wild', 'xref': 'stream', 'objstm': True, 'rawcr': True}, 1),
-    ({'lex': 'mild', 'xref': 'table', 'deep': True}, 1),
+    ({'lex': 'mild', 'xref': 'table', 'deep': True}, 1), ({'lex': 'mild', 'xref': 'stream', 'objstm': True, 'ahx': True}, 1),
 ]
 
 
@@ -571,7 +577,9 @@ def stage1(write_cases):
         k = o[o.rindex(' (known') + 8:-2].split()
         o = o[:o.rindex(' (known')] + ')'
         hexbytes, expected = o[6:sp], o[sp + 1:-1]
-        tags = dict(tags, write=c, known_raw_eol=(k[0] == '1'), known_deep=(k[1] == '1'))
+        tags = dict(tags, write=c, known_raw_eol=(k[0] == '1'), known_deep=(k[1] == '1'), known_ahx=(k[2] == '1'))
+        if k[2] == '1':
+            tags['kind'] += '-ahx'
         if k[0] == '1':
             tags['kind'] += '-rawcr'
         if k[1] == '1':
@@ -603,6 +611,8 @@ def classify(line, tags, model_out, impl_out, verdict):
         return 'C02-raw-eol'
     if tags.get('known_deep'):
         return 'C02-deep-parens'
+    if tags.get('known_ahx'):
+        return 'C02-asciihex'
     return None
 
 
